@@ -9,6 +9,8 @@
 (*   status   exit status of the differ / wrapped command (mode diff, wrap)                   *)
 (*   src      the set of pager sources that are set: subset of {"config","delta","bat","pager"} *)
 (*   pagerval value of $PAGER ("envpager" | "more" | "less -F")                                *)
+(*   bare     the explicit sources (--pager, DELTA_PAGER) name a bare `less` (no arguments) instead of  *)
+(*            mypager / otherpager                                                                 *)
 (*   stay     the pager, having stopped reading, closes its input but stays alive for a while  *)
 (*   big      the output is larger than a pipe buffer (a write after the pager stopped reading  *)
 (*            really fails)                                                                    *)
@@ -34,15 +36,15 @@ WantQuiet(sc) == sc.quit > 0                 \* no panic, no error message about
 
 \* --- pager selection:  --pager / delta.pager > DELTA_PAGER > BAT_PAGER > PAGER > less ---
 Chosen(sc) ==
-  IF "config" \in sc.src THEN "mypager"
-  ELSE IF "delta" \in sc.src THEN "otherpager"
+  IF "config" \in sc.src THEN (IF sc.bare THEN "less" ELSE "mypager")
+  ELSE IF "delta" \in sc.src THEN (IF sc.bare THEN "less" ELSE "otherpager")
   ELSE IF "bat" \in sc.src THEN "batpager"
   ELSE IF "pager" \in sc.src THEN (IF sc.pagerval \in {"more", "less -F"} THEN "less" ELSE sc.pagerval)
   ELSE "less"
 \* less must be told to pass colours through whenever its arguments are delta's to choose
 \* (no arguments given, or the value comes from PAGER, which is shared with other programs)
 LessArgsAreDeltas(sc) ==
-  Chosen(sc) = "less" /\ ~("config" \in sc.src) /\ ~("delta" \in sc.src) /\ ~("bat" \in sc.src)
+  Chosen(sc) = "less" /\ (sc.bare \/ (~("config" \in sc.src) /\ ~("delta" \in sc.src))) /\ (("config" \in sc.src \/ "delta" \in sc.src) \/ ~("bat" \in sc.src))
 
 \* --- delivery ---
 \* got: bytes the pager received, sent: bytes delta writes for this input (reference run)
